@@ -176,6 +176,10 @@ def gen_case(world, tier, prop):
     return d
 
   def factory(depth):
+    if rng.random() < 0.25:
+      # argument-less factory (equal to every other one of its kind)
+      return {'node': {'btype': 'ArgFactory', 'fn': 'z0', 'args': [], 'kwargs': {}},
+              'id': new_id()}
     fn = rng.choice(['n0', 'n1', 'N2', 'N3', 'n4', 'n5'])
     nid = new_id()
     args, kwargs = fill(fn, nid, lambda: dyn_child(depth + 1, in_factory=True))
@@ -250,6 +254,7 @@ def features(case):
 def run(case):
   rec = stubs.reset()
   fns = stubs.install(BUILD_STUBS)
+  fns['z0'] = stubmod.z0
   svs = {}
   mk_m = M.Maker('model', fns, svs)
   mk_i = M.Maker('impl', fns, svs)
